@@ -358,7 +358,7 @@ pub fn c19_sweep(max_l: usize) -> Vec<Program> {
                 }
             }
             // untrusted iterators with a loose size hint into the plain collectors
-            for lm in [2usize, 3] {
+            for lm in [0usize, 2, 3] {
                 let mut sinks = vec![];
                 for c in containers {
                     sinks.push(Sink::PlainVec1(c));
@@ -580,6 +580,7 @@ pub fn rolling(max_l: usize) -> Vec<Program> {
                     driver: crate::genroll::SLICE_SWEEP,
                     window: 1,
                     other_delta: 0,
+                    buf_delta: 0,
                     out: Container::Sim,
                 }));
             }
@@ -615,16 +616,20 @@ pub fn rolling(max_l: usize) -> Vec<Program> {
                     } else {
                         &[0]
                     };
+                    let buf_deltas: &[i64] = if matches!(driver, 14 | 15) { &[0, 1, 2, -1, -(len as i64)] } else { &[0] };
                     for &other_delta in deltas {
-                        out.push(Program::Roll(Roll {
-                            ty: Ty::F64,
-                            data: pattern(Ty::F64, len, if len > 3 { 1 } else { 0 }),
-                            backend: backend.clone(),
-                            driver,
-                            window,
-                            other_delta,
-                            out: Container::Sim,
-                        }));
+                        for &buf_delta in buf_deltas {
+                            out.push(Program::Roll(Roll {
+                                ty: Ty::F64,
+                                data: pattern(Ty::F64, len, if len > 3 { 1 } else { 0 }),
+                                backend: backend.clone(),
+                                driver,
+                                window,
+                                other_delta,
+                                buf_delta,
+                                out: Container::Sim,
+                            }));
+                        }
                     }
                 }
             }
